@@ -51,6 +51,14 @@ theorem occurs_drop (p t : List Nat) (k : Nat) : Occurs p t → Occurs (p.drop k
     | nil => simpa using h
     | cons a q => simpa using ih q (occurs_tail a q t h)
 
+/-- a prefix of an occurring string occurs -/
+theorem occurs_take (p t : List Nat) (k : Nat) : Occurs p t → Occurs (p.take k) t := by
+  rintro ⟨i, h1, h2⟩
+  refine ⟨i, ?_, ?_⟩
+  · simp only [List.length_take]; omega
+  · conv => rhs; rw [← h2]
+    simp [List.take_take]
+
 /-- shorter suffixes of an occurring suffix occur (monotonicity) -/
 theorem occurs_suffix_mono (p t : List Nat) (l l' : Nat) (h : l ≤ l') :
     Occurs (suffix p l') t → Occurs (suffix p l) t := by
